@@ -72,6 +72,45 @@ pub fn run_pat_px(l: &[i128]) -> Vec<i128> {
     }
     let bm = if blend == 0 { BlendMode::Source } else { BlendMode::SourceOver };
     // total transform from source space to device space
+    if kind == 2 {
+        // C11: a Pattern's opacity scales edge pixels like interior pixels: anti-aliased fill of the pixmap inset by half a
+        // pixel with a constant-colour pattern over a transparent pixmap; edge = interior / 2, corner = interior / 4
+        let mut pm = Pixmap::new(w, h).unwrap();
+        let mut paint = Paint::default();
+        paint.shader = Pattern::new(src.as_ref(), spread, filter, opacity, Transform::identity());
+        paint.blend_mode = bm;
+        paint.anti_alias = true;
+        let mut pb = PathBuilder::new();
+        pb.push_rect(Rect::from_ltrb(0.5, 0.5, w as f32 - 0.5, h as f32 - 0.5).unwrap());
+        let path = pb.finish().unwrap();
+        pm.fill_path(&path, &paint, FillRule::Winding, Transform::identity(), None);
+        let (mut checked, mut bad) = (0i128, 0i128);
+        let mut first = [0i128; 5];
+        if w >= 4 && h >= 4 && constant {
+            let inner = pm.pixel(w / 2, h / 2).unwrap();
+            let i4 = [inner.red() as f64, inner.green() as f64, inner.blue() as f64, inner.alpha() as f64];
+            for y in 0..h {
+                for x in 0..w {
+                    let ex = x == 0 || x == w - 1;
+                    let ey = y == 0 || y == h - 1;
+                    let k = if ex && ey { 0.25 } else if ex || ey { 0.5 } else { 1.0 };
+                    let g = pm.pixel(x, y).unwrap();
+                    let g4 = [g.red() as f64, g.green() as f64, g.blue() as f64, g.alpha() as f64];
+                    checked += 1;
+                    for j in 0..4 {
+                        if (g4[j] - i4[j] * k).abs() > 2.5 {
+                            bad += 1;
+                            if first[2] == 0 {
+                                first = [x as i128, y as i128, 7, g4[j] as i128, (i4[j] * k) as i128];
+                            }
+                            break;
+                        }
+                    }
+                }
+            }
+        }
+        return vec![checked, 0, 0, 0, 0, bad, first[0], first[1], first[2], first[3], first[4], 0, 0];
+    }
     let total = if kind == 0 {
         let pp = PixmapPaint { opacity, blend_mode: bm, quality: filter };
         pm.draw_pixmap(ox, oy, src.as_ref(), &pp, ts, None);
